@@ -17,12 +17,15 @@ def c08(ctx):
     long_run_battery(ctx, ["cc14"])
     run_script(ctx, gen.extreme_values(ctx.rng, "cc14", ctx.q(8000, 80000)), "extreme-values-cc14")
     nostd_run(ctx, "cc14", ctx.q(15000, 150000))
+    system_behaviour_battery(ctx)
     # twin-free canary: corrupt one reported value / fabricate one report
     canary(ctx, trace, corrupt_out("cc14", op=("feed",), need_report=ctx.rng.random() < 0.5))
     ctx.rule = ("design: TLC fixpoint of machine x C08-monitor (all 128 controller numbers, abstract values, "
                 "22 other message types, reset); code: every TLC edge executed on the real scanner on all 16 "
                 "channels through 3 ShortMessage implementations, plus seeded random histories over the full "
-                "alphabet judged by TLC (ghost and backward-scan form of the monitor). Non-trivial = distinct "
+                "alphabet judged by TLC (ghost and backward-scan form of the monitor); long runs (one call repeated up to "
+                "2^16+1 times between partial progress and completion), extreme-value histories, and the same drivers "
+                "against the build without std. Non-trivial = distinct "
                 "(input, reports) pairs with a non-empty report, plus spec edges whose expected report is non-empty.")
 
 
@@ -68,7 +71,8 @@ def c07(ctx):
                 "judged against Cc14Encode / Cc14NewPanics (all 128 controller numbers for the panic, all 16x32 "
                 "(channel, controller) pairs x boundary values, full value sweeps for seeded pairs); scanner: "
                 "state invariant I_C07 in every reachable machine state (TLC), complete-edge replay, and the real "
-                "encoding fed to a real scanner after random prior traffic. Non-trivial = distinct messages "
+                "encoding fed to a real scanner after random prior traffic, after long runs of one repeated call, on "
+                "scanners made by new() and by default(), with and without std. Non-trivial = distinct messages "
                 "round-tripped or encoded.")
 
 
@@ -94,11 +98,13 @@ def c11(ctx):
     long_run_battery(ctx, ["pn"])
     run_script(ctx, gen.extreme_values(ctx.rng, "pn", ctx.q(8000, 80000)), "extreme-values-pn")
     nostd_run(ctx, "pn", ctx.q(15000, 150000))
+    system_behaviour_battery(ctx)
     canary(ctx, trace, corrupt_out("pn", op=("feed",), need_report=ctx.rng.random() < 0.5))
     ctx.rule = ("design: TLC fixpoint of machine x C11-monitor (all 8 contributing controllers + 11 others, "
                 "abstract values, other message types, reset); code: every TLC edge on all 16 channels x 3 "
                 "implementations, seeded random full-alphabet histories judged by TLC (ghost and backward-scan "
-                "form). Non-trivial = distinct (input, reports) pairs with a report + reporting spec edges.")
+                "form), long runs, extreme-value histories, the build without std. "
+                "Non-trivial = distinct (input, reports) pairs with a report + reporting spec edges.")
 
 
 def c10(ctx):
@@ -115,8 +121,8 @@ def c10(ctx):
     ctx.rule = ("design: invariants I_C10 / I_C10run hold in every reachable machine state (TLC): every abstract "
                 "message's LSB-first encoding and the running forms (3 repetitions) are inverted; code: complete "
                 "edge replay, and real encodings + running forms of seeded length fed to the real scanner after "
-                "random prior traffic (full value domain, traffic on other channels interleaved). "
-                "Non-trivial = distinct messages round-tripped.")
+                "random prior traffic (full value domain, traffic on other channels interleaved), after long runs of one "
+                "repeated call, with and without std. Non-trivial = distinct messages round-tripped.")
 
 
 def random_poll_traces(ctx, n):
@@ -153,7 +159,9 @@ def c13(ctx):
     ctx.rule = ("design: TLC fixpoint of machine x C13/C14-monitor with explicit time for timeouts {0, 2, Inf}; "
                 "code: every TLC edge (feeds, polls, ticks, resets) on all 16 channels x 3 implementations for each "
                 "timeout with the mock clock; seeded random histories (ticks below/at/above the timeout, "
-                "timeouts {0,1,5 ms,MAX}); twin runs (early polls skipped; different passage of time). "
+                "timeouts {0,1,5 ms,MAX}); twin runs (early polls skipped; different passage of time); long runs; clock "
+                "readings at which 16/32/64-bit counts of ns/us/ms wrap; the production configuration (real Instant) "
+                "with timeouts 0, MAX, 2^40..2^63 s and with finite timeouts where real time can only confirm the script. "
                 "Non-trivial = distinct (call, reports) pairs with a report + reporting spec edges.")
 
 
@@ -178,7 +186,8 @@ def c14(ctx):
     ctx.rule = ("design: TLC fixpoint of machine x monitor over the malformed alphabet too (any contributing "
                 "controller in any order, polls, ticks, resets) for timeouts {0, 2, Inf}; code: complete edge "
                 "replay and seeded random full-alphabet histories on up to 16 channels with mixed registered / "
-                "non-registered traffic, every clause C14a-f evaluated by TLC on every event. "
+                "non-registered traffic, long runs, far-away clock readings and extreme-value histories, every clause "
+                "C14a-f evaluated by TLC on every event. "
                 "Non-trivial = distinct (call, reports) pairs with a report + reporting spec edges.")
 
 
